@@ -50,9 +50,10 @@ enum H {
     ObsVar(Observer<Var<V>>),
     Expert(ExpertNode<i64>),
     VarI(Var<i64>),
+    Any(Box<dyn std::any::Any>),
 }
 
-pub const SHAPES: [&str; 8] = ["var_var", "var_var_var", "bind_own_input", "self_map2", "closure_owns_var", "expert", "var_var_obs", "memo_in_bind"];
+pub const SHAPES: [&str; 10] = ["var_var", "var_var_var", "bind_own_input", "self_map2", "closure_owns_var", "expert", "var_var_obs", "memo_in_bind", "mapi_btree", "mapi_ordmap"];
 
 struct Built {
     handles: Vec<(&'static str, H)>,
@@ -171,6 +172,48 @@ fn build(shape: &str, c: &Rc<Cell<isize>>) -> Built {
             handles.push(("bind", H::Node(b)));
             handles.push(("sel", H::VarI(sel)));
             handles.push(("x", H::VarV(x)));
+        }
+        "mapi_btree" | "mapi_ordmap" => {
+            // per-key graphs of incr_mapi_ / incr_filter_mapi_: the user function and what it
+            // captures (a token per key) must go when the operator goes
+            use incremental_map::prelude::*;
+            let outer = st.var(1i64);
+            let c2 = c.clone();
+            let ow = outer.watch();
+            let per_key = move |_k: &i64, v: Incr<i64>| {
+                let t = Tok::new(&c2);
+                v.map2(&ow, move |x, o| {
+                    let _ = &t;
+                    x + o
+                })
+            };
+            let mut per_key2 = per_key.clone();
+            if shape == "mapi_btree" {
+                let input = st.var(std::collections::BTreeMap::from([(1i64, 10i64), (2, 20), (3, 30)]));
+                let a = input.incr_mapi_(per_key);
+                let b = input.incr_filter_mapi_(move |k, v| per_key2(k, v).map(|x| if x % 2 == 0 { Some(*x) } else { None }));
+                probes.push(("mapi", probe(a.weak())));
+                probes.push(("filter_mapi", probe(b.weak())));
+                probes.push(("input", probe(input.watch().weak())));
+                handles.push(("obs(mapi)", H::Any(Box::new(a.observe()))));
+                handles.push(("obs(filter_mapi)", H::Any(Box::new(b.observe()))));
+                handles.push(("mapi", H::Any(Box::new(a))));
+                handles.push(("input", H::Any(Box::new(input))));
+                drop(b);
+            } else {
+                let input = st.var(im_rc::OrdMap::from(vec![(1i64, 10i64), (2, 20), (3, 30)]));
+                let a = input.incr_mapi_(per_key);
+                let b = input.incr_filter_mapi_(move |k, v| per_key2(k, v).map(|x| if x % 2 == 0 { Some(*x) } else { None }));
+                probes.push(("mapi", probe(a.weak())));
+                probes.push(("filter_mapi", probe(b.weak())));
+                probes.push(("input", probe(input.watch().weak())));
+                handles.push(("obs(mapi)", H::Any(Box::new(a.observe()))));
+                handles.push(("obs(filter_mapi)", H::Any(Box::new(b.observe()))));
+                handles.push(("mapi", H::Any(Box::new(a))));
+                handles.push(("input", H::Any(Box::new(input))));
+                drop(b);
+            }
+            handles.push(("outer", H::VarI(outer)));
         }
         _ => panic!("unknown shape"),
     }
